@@ -278,3 +278,67 @@ func decodeEdge(c *RCell, prefix Bits, m int, out *[]DictEntry, depth int) error
 	}
 	return decodeEdge(c.Refs[1], append(key.Clone(), true), rest-1, out, depth+1)
 }
+
+// DecodeLabel reads one HmLabel ~n m from the beginning of a cell's bits and returns the label and the
+// bits after it.
+func DecodeLabel(b Bits, m int) (label, rest Bits, ok bool) {
+	p := 0
+	has := func(k int) bool { return p+k <= len(b) }
+	if !has(1) {
+		return nil, nil, false
+	}
+	if !b[0] {
+		p = 1
+		k := 0
+		for {
+			if !has(1) {
+				return nil, nil, false
+			}
+			if !b[p] {
+				p++
+				break
+			}
+			p++
+			k++
+		}
+		if !has(k) {
+			return nil, nil, false
+		}
+		label = b[p : p+k].Clone()
+		p += k
+	} else {
+		if !has(2) {
+			return nil, nil, false
+		}
+		w := limBits(m)
+		if !b[1] {
+			p = 2
+			if !has(w) {
+				return nil, nil, false
+			}
+			k := int(b.Uint(p, w))
+			p += w
+			if !has(k) {
+				return nil, nil, false
+			}
+			label = b[p : p+k].Clone()
+			p += k
+		} else {
+			p = 2
+			if !has(1 + w) {
+				return nil, nil, false
+			}
+			v := b[p]
+			k := int(b.Uint(p+1, w))
+			p += 1 + w
+			label = make(Bits, k)
+			for i := range label {
+				label[i] = v
+			}
+		}
+	}
+	if len(label) > m {
+		return nil, nil, false
+	}
+	return label, b[p:].Clone(), true
+}
